@@ -4,10 +4,10 @@ import copy, re
 from vf import cqle_stmt as H
 
 # db column name -> model id
-NAMES = {'k': 0, 'c': 1, 'st': 2, 'x': 3, 'y': 4, 's': 5, 'l': 6, 'm': 7, 'n1': 8, 'n2': 9,
+NAMES = {'k': 0, 'c': 1, 'st': 2, 'x': 3, 'y': 4, 's': 5, 'l': 6, 'm': 7, 'n1': 8, 'n2': 9, 'm2': 10,
          'yy': 40}          # 'yy' is an ATTRIBUTE name (db_field 'y'): it must never appear in CQL
-ROW_COLS = [2, 3, 4, 5, 6, 7]
-KIND = {0: 'KScalar', 1: 'KScalar', 2: 'KScalar', 3: 'KScalar', 4: 'KScalar', 5: 'KSetC', 6: 'KListC', 7: 'KMapC', 8: 'KCounterC', 9: 'KCounterC'}
+ROW_COLS = [2, 3, 4, 5, 6, 7, 10]
+KIND = {0: 'KScalar', 1: 'KScalar', 2: 'KScalar', 3: 'KScalar', 4: 'KScalar', 5: 'KSetC', 6: 'KListC', 7: 'KMapC', 8: 'KCounterC', 9: 'KCounterC', 10: 'KMapC'}
 SCHEMA_ROW = '{| pk_col := 0; ck_col := Some 1; static_cols := [2] |}'
 SCHEMA_CNT = '{| pk_col := 0; ck_col := None; static_cols := [] |}'
 _M = {}
@@ -30,6 +30,7 @@ def models():
         s = C.Set(C.Integer)
         l = C.List(C.Integer)
         m = C.Map(C.Integer, C.Integer)
+        m2 = C.Map(C.Integer, C.Integer)
 
     class Cnt(Model):
         __keyspace__ = 'ks'
@@ -136,7 +137,7 @@ def install_names():
 SCAL = [None, 0, 1, 5, -3]
 LISTS = [[], [1], [1, 2], [2, 1, 2], [1, 2, 3], [7, 1, 2], [1, 2, 9], [7, 1, 2, 9]]
 SETS = [[], [1], [1, 2], [2, 3], [1, 2, 3]]
-MAPS = [[], [[1, 2]], [[1, 2], [3, 4]], [[1, 5], [3, 4]], [[3, 4]], [[2, 2], [1, 2]]]
+MAPS = [[], [[1, 2]], [[1, 2], [3, 4]], [[1, 5], [3, 4]], [[3, 4]], [[2, 2], [1, 2]], [[1, 2], [2, 3], [3, 4], [9, 1]]]
 
 
 def gen_attr_val(rng, attr):
@@ -149,10 +150,32 @@ def gen_attr_val(rng, attr):
     return rng.choice([None] + [['M', v] for v in MAPS] * 2)
 
 
-ATTRS = ['st', 'x', 'yy', 's', 'l', 'm']
+ATTRS = ['st', 'x', 'yy', 's', 'l', 'm', 'm2']
+
+
+def gen_scenario(rng):
+    """structured prefixes: the edits one save must turn into several operations at once"""
+    big = [[1, 2], [2, 3], [3, 4], [9, 1]]
+    r = rng.random()
+    persist = [rng.choice(['save', 'batch_save'])]
+    if r < 0.35:      # keys dropped from two map columns in the same (possibly batched) save
+        ks = rng.sample([1, 2, 3, 9], 2)
+        return [['create', {'m': ['M', big], 'm2': ['M', big], 'x': rng.choice(SCAL)}],
+                ['mut', 'm', 'remove', ks[0]], ['mut', 'm2', 'remove', ks[1]]] + ([['mut', 'm', 'add', 5]] if rng.random() < 0.3 else []) + [persist]
+    if r < 0.7:       # a stored list grows at both ends (and other containers change) in one save
+        base = rng.choice([[2, 3], [1], [4, 4], [1, 2, 3]])
+        return [['create', {'l': ['L', base], 's': ['S', [1, 2]]}], ['mut', 'l', 'grow', rng.choice([1, 2, 3])]] + \
+               ([['mut', 's', 'grow', 5]] if rng.random() < 0.4 else []) + [persist]
+    # the clustering key of a persisted instance is reassigned
+    return [['create', dict((a, gen_attr_val(rng, a)) for a in rng.sample(ATTRS, rng.randint(2, 6)))],
+            ['rekey', rng.choice([3, 4, 5])]] + ([['set', 'x', rng.choice(SCAL)]] if rng.random() < 0.5 else []) + [persist]
 
 
 def gen_history(rng, maxn=8):
+    if rng.random() < 0.3:
+        pre = gen_scenario(rng)
+        tail = gen_history(rng, maxn=max(2, maxn - len(pre)))[1:]
+        return pre + tail
     n = rng.randint(2, maxn)
     ops = [['create', dict((a, gen_attr_val(rng, a)) for a in rng.sample(ATTRS, rng.randint(0, 6)))]]
     for _ in range(n - 1):
@@ -163,10 +186,15 @@ def gen_history(rng, maxn=8):
         elif r < 0.36:
             ops.append(['del', rng.choice(ATTRS)])
         elif r < 0.5:
-            a = rng.choice(['s', 'l', 'm'])
-            ops.append(['mut', a, rng.choice(['add', 'remove', 'clear']), rng.choice([1, 2, 3, 9])])
+            a = rng.choice(['s', 'l', 'm', 'm2', 'm', 'm2', 'l'])
+            how = rng.choice(['add', 'remove', 'remove', 'clear', 'grow'])
+            ops.append(['mut', a, how, rng.choice([1, 2, 3, 9])])
+            if a in ('m', 'm2') and how == 'remove' and rng.random() < 0.6:
+                ops.append(['mut', 'm2' if a == 'm' else 'm', 'remove', rng.choice([1, 2, 3, 9])])   # keys dropped from both maps in one save
+        elif r < 0.54:
+            ops.append(['rekey', rng.choice([3, 4, 5, 6])])
         elif r < 0.64:
-            ops.append(['save'])
+            ops.append([rng.choice(['save', 'save', 'batch_save'])])
         elif r < 0.8:
             ops.append(['update', dict((a, gen_attr_val(rng, a)) for a in rng.sample(ATTRS, rng.randint(0, 2)))])
         elif r < 0.84:
@@ -183,7 +211,7 @@ def gen_qs_update(rng):
     out = []
     used = set()
     for _ in range(rng.randint(1, 3)):
-        a = rng.choice(ATTRS)
+        a = rng.choice(ATTRS[:6])
         if a in used:
             continue
         used.add(a)
@@ -226,7 +254,7 @@ def doc_update(row, a, op, v):
         row[a] = None
 
 
-ATTR_COL = {'st': 2, 'x': 3, 'yy': 4, 's': 5, 'l': 6, 'm': 7}
+ATTR_COL = {'st': 2, 'x': 3, 'yy': 4, 's': 5, 'l': 6, 'm': 7, 'm2': 10}
 
 
 def row_literal(row):
